@@ -67,6 +67,7 @@ def analyse(ctx, cfg, fnpath, assume=(), args=None, **kw):
     if fn is None:
         raise X.Unanalysable('anchor function %s not found' % fnpath)
     hyps = kw.pop('_hyps', None)
+    summarise = kw.pop('summarise', True)
     kw.pop('_no_len_limit', None)
     exact = kw.pop('_exact_casts', None)
     ip = X.Interp(cr, **kw)
@@ -79,6 +80,9 @@ def analyse(ctx, cfg, fnpath, assume=(), args=None, **kw):
         st.assume(f)
     outs = ip.run(st)
     ctx.absorb(ip, fnpath)
+    if summarise:
+        from . import loopsum
+        outs = loopsum.summarise_all(ip, outs)
     return Analysis(ip, fn, outs, st)
 
 
@@ -229,3 +233,15 @@ def head_vars(st):
             if t[0] == 'var' and '@bb' in t[1] and t not in out:
                 out.append(t)
     return out
+
+
+def known_variant(ip, st, t, n=2):
+    """variant index of the enum-valued term t on this path (recorded by a match, or entailed by the constraints)"""
+    d = st.variants.get(t)
+    if d is not None:
+        return d
+    dt = T.typed(('discr', t), 'isize')
+    for k in range(n):
+        if ip.entails(st, eq(dt, I(k))):
+            return k
+    return None
